@@ -111,6 +111,7 @@ def run(ctx, rep):
 
     # ---- C13.count ---------------------------------------------------------------------------------------
     iolib.count_rules(ctx, rep, "C13")
+    iolib.flush_forward_rules(ctx, rep, "C13")
 
     # ---- C13.read: read errors of the stream reader are reported ------------------------------------------------
     sb = anchor(F, rep, "C13.read", "decode::FlacStreamReader::read")
